@@ -97,13 +97,36 @@ class AH:
             name = rng.choice(['and', 'or', 'xor', 'implies', 'equiv', 'diff'])
             self.reg(s.op(A, 'apply', rng.choice(gen.ALIASES[name]), a, c, None),
                      gen.conn(name, self.live[a], self.live[c], full), f'apply {name}')
-        elif k < 0.42:
+        elif k < 0.38:
             a, c = rng.choice(hs), rng.choice(hs)
             o = rng.choice(['not', 'and', 'or', 'implies', 'equiv'])
             if o == 'not':
                 self.reg(s.op(A, 'fapply', 'not', a, None), T.neg(self.live[a], n), '~')
             else:
                 self.reg(s.op(A, 'fapply', o, a, c), gen.conn(o, self.live[a], self.live[c], full), o)
+        elif k < 0.40 and n >= 2:
+            # the module-level image / preimage of dd.autoref over the pair (v0, v1)
+            # (v1 primed); preimage only while the pair is adjacent (documented precondition)
+            t, src = rng.choice(hs), rng.choice(hs)
+            tt_, ts = self.live[t], T.exists(self.live[src], n, [1])
+            # the set: the source function with the primed variable quantified away
+            sref = self.reg(s.op(A, 'quantify', src, [1], False), ts, 'exists v1')
+            if sref is not None:
+                lv = self.b.vars
+                adj = abs(lv[vname(0)] - lv[vname(1)]) == 1
+                if adj and rng.random() < 0.5:
+                    e = T.exists(tt_ & T.rename(ts, n, {0: 1}), n, [1])
+                    self.reg(s.op(A, 'preimage', t, sref, {0: 1}, [1], False), e, 'preimage')
+                else:
+                    e = T.rename(T.exists(tt_ & ts, n, [0]), n, {1: 0})
+                    self.reg(s.op(A, 'image', t, sref, {1: 0}, [0], False), e, 'image')
+        elif k < 0.42:
+            # the printed formula of a handle, read back
+            from ..impl import Text
+            a = rng.choice(hs)
+            text = s.op(A, 'to_expr', a)
+            if text is not None:
+                self.reg(s.op(A, 'add_expr_text', Text(text)), self.live[a], 'add_expr(to_expr(u))')
         elif k < 0.425:
             # a copy into the SAME manager (module-level `copy_bdd`): a second handle on
             # the same node, with its own reference
